@@ -27,7 +27,14 @@ RULE = ("input charts from three kinds of source: (1) ~72% built through the lis
         "generated osu texts, .qua documents (incl. explicit `EndTime: 0` and omitted keys), .sm texts, BMS lines and OJN bytes "
         "(the text/byte generators of harness/props/c01, c06, c02, c04, c07 are reused); (3) ~22% of all charts additionally go "
         "through `rate` or one of the 16 converters before full_ln.  The kind of a note is the list it lives in; the input rows are "
-        "taken from the chart that full_ln receives.  non-trivial = some column holds at least two notes")
+        "taken from the chart that full_ln receives; (4) ~30% of all cases are SESSIONS: 2-4 full_ln calls (own gap/threshold each) on one lineage "
+        "of chart objects — the chart, earlier results, deepcopies and rated copies of them — with in-place edits before each call "
+        "through every editing route of the library (list property column assignment on offset/length/column, Stacker over all "
+        "lists / over (type(hits), type(holds)) / base classes / NoteList / one list, Stacker.loc with a column or time condition, "
+        "a list replaced through the map property / in objs / by swapping or copying its .df, filter + append that moves notes "
+        "between hits and holds or re-times them keeping the row total); every call is judged on its own against the content the "
+        "chart has at that moment, read through the plain list API (never through stack()).  "
+        "non-trivial = some column holds at least two notes (sessions: and at least two calls were judged)")
 ASSUMPTIONS = [
     "pandas concat/sort_values/groupby/diff/shift/itertuples and DataFrame.from_dict are modelled as list operations "
     "(any sorting permutation is accepted for equal offsets)",
@@ -136,7 +143,14 @@ def build_map(case):
     m = _map_class(case["game"])()
     bd = case.get("build") or {}
     m.hits = make_list(type(m.hits), case["hits"], bd.get("hits", "frame"))
-    m.holds = make_list(type(m.holds), case["holds"], bd.get("holds", "frame"))
+    nanh = [r[2] is None for r in case["holds"]]
+    m.holds = make_list(type(m.holds), [[r[0], r[1], r[2] if r[2] is not None else [0, 1]] for r in case["holds"]],
+                        bd.get("holds", "frame"))
+    if any(nanh):
+        # outside the domain (correspondence only): hold rows whose length is NaN
+        import numpy as _np
+        cur = m.holds.df["length"].tolist()
+        m.holds.df = m.holds.df.assign(length=_np.array([float("nan") if n else float(v) for n, v in zip(nanh, cur)], dtype=float))
     for k, rows in (case.get("extras") or {}).items():
         setattr(m, k, make_list(type(m.objs[k]), rows, bd.get("extras", "frame")))
     # legal but unusual inputs: lists that carry columns nobody declared (a stray `length` on hits, `index`, ...)
@@ -280,7 +294,7 @@ def load_chart(case):
     return m
 
 
-def chart_rows(m):
+def chart_rows(m, nan_holds=False):
     """(rows of the further note lists, hits, holds) of a chart; kind of a note = the list it lives in.
     A hit row is (offset, column, stray) where stray = the value of a `length` column the hit list may carry
     (None when absent / NaN) — the property does not look at it, the code does (domain hypothesis of the theorems)."""
@@ -294,9 +308,9 @@ def chart_rows(m):
             if math.isinf(l):
                 raise BadNumber("inf")
             hits.append((fin(o), _intcol(c), None if math.isnan(l) else Fr(l)))
-        holds = rows_of(m.holds)
-        if any(l is None for (_o, _c, l) in holds):
-            raise BadNumber("hold without length")
+        holds = rows_of(m.holds, nan_ok=nan_holds)
+        if "length" not in m.holds.df.columns:
+            raise BadNumber("hold list without length column")
         extras = []
         for k in note_lists(m):
             if k not in ("hits", "holds"):
@@ -366,13 +380,18 @@ def fin(x):
     return Fr(x)
 
 
-def rows_of(lst):
-    """[(offset, column, length|None)] as exact rationals"""
+def rows_of(lst, nan_ok=False):
+    """[(offset, column, length|None)] as exact rationals (nan_ok: a NaN length reads as None instead of refusing)"""
     df = lst.df
     has_len = "length" in df.columns
     offs, cols = df["offset"].tolist(), df["column"].tolist()
     lens = df["length"].tolist() if has_len else [None] * len(offs)
-    return [(fin(o), _intcol(c), fin(l) if has_len else None) for o, c, l in zip(offs, cols, lens)]
+
+    def ln(l):
+        if nan_ok and isinstance(l, float) and math.isnan(l):
+            return None
+        return fin(l)
+    return [(fin(o), _intcol(c), ln(l) if has_len else None) for o, c, l in zip(offs, cols, lens)]
 
 
 def err_class(e):
@@ -410,7 +429,7 @@ def case_extras_rows(case):
 def case_rows(case):
     """(rows of the further note lists, hits, holds) — only hits and holds are the subject of full_ln"""
     hits = [(F(r[0]), int(r[1]), None) for r in case["hits"]]
-    holds = [(F(r[0]), int(r[1]), F(r[2])) for r in case["holds"]]
+    holds = [(F(r[0]), int(r[1]), None if r[2] is None else F(r[2])) for r in case["holds"]]
     return case_extras_rows(case), hits, holds
 
 
@@ -503,10 +522,14 @@ def judge_call(m, gap, thr, drv, case, tags, fixed_mode=None):
     import warnings
     from reamber.algorithms.generate.full_ln import full_ln
     via = case.get("via", "api")
+    # hold rows with NaN length: only when the test itself built them (outside the domain, correspondence only);
+    # from any other source such a chart is refused as before (non-finite cell)
+    built_nan = via == "api" and any(h[2] is None for h in case["holds"])
     try:
-        extras, hits_s, holds = chart_rows(m)
+        extras, hits_s, holds = chart_rows(m, nan_holds=built_nan)
     except Skip as e:
         return _skipped(tags, e), None
+    nan_hold = any(l is None for (_o, _c, l) in holds)
     tags.append(type(m).__name__)
     hits = [(o, c, None) for (o, c, _l) in hits_s]          # kind of a note = the list it lives in
     stray = any(l is not None for (_o, _c, l) in hits_s)
@@ -536,7 +559,9 @@ def judge_call(m, gap, thr, drv, case, tags, fixed_mode=None):
         tags.append("stray-length")
     if not inp:
         tags.append("empty")
-    dom = not stray          # the theorems' domain hypothesis
+    if nan_hold:
+        tags.append("nan-hold")
+    dom = not stray and not nan_hold          # the theorems' domain hypotheses (`WellKinded`)
     if impl_err is not None:
         tags.append("impl-raises")
         # the property promises a result for every chart, and the model never raises
@@ -546,7 +571,7 @@ def judge_call(m, gap, thr, drv, case, tags, fixed_mode=None):
     bad = None
     try:
         r_hits = [(o, c, None) for (o, c, _l) in rows_of(res.hits)]
-        r_holds = rows_of(res.holds)
+        r_holds = rows_of(res.holds)       # a NaN length in the RESULT's hold list is refused (`fullLnWith_holds_have_length`)
         if any(l is None for (_o, _c, l) in r_holds):
             raise BadNumber("hold list without length")
         r_extras = []
@@ -594,6 +619,19 @@ def judge_call(m, gap, thr, drv, case, tags, fixed_mode=None):
     if stray and built_stray:
         ok = others_ok and bad is None
         tags.append("corr-only")
+    # the property quantifies over gap >= 0 and threshold >= 0; the code accepts negative ones and the model follows it
+    # (`fullLn_spec` holds for every gap/threshold; `neg_gap_reaches`, `neg_thr_negative_length` show what is lost):
+    # such a call is outside the property's range — correspondence only, nothing is demanded of it.
+    if nan_hold:
+        ok = others_ok and bad is None
+        if "corr-only" not in tags:
+            tags.append("corr-only")
+    if gap < 0 or thr < 0:
+        ok = True
+        dom = False
+        tags.append("neg-params")
+        if "corr-only" not in tags:
+            tags.append("corr-only")
     # ---- (C) correspondence with the model
     agree = "ok" in mo
     maxdev = 0.0
@@ -899,7 +937,7 @@ def gen_session(rng, case):
     """2-4 full_ln calls on one lineage of chart objects with edits in between"""
     exact = case.get("mode", "E") == "E"
     steps = []
-    n = rng.choice([2, 2, 3, 3, 4])
+    n = rng.choice([2, 2, 2, 3, 3, 4])
     for i in range(n):
         gap, thr = gen_params(rng, "E" if exact or rng.random() < 0.5 else "T")
         st = dict(gap=R(gap), thr=R(thr))
@@ -1145,20 +1183,33 @@ def gen(rng, tier, i):
             allrows = rng.random() < 0.5
             val = lambda: R(Fr(rng.choice([0, 0, 1, 50, 1000])))
             case["hits"] = [h + [val() if (allrows or rng.random() < 0.5) else None] for h in case["hits"]]
+        if rng.random() < 0.02 and case["holds"]:
+            # outside the domain (correspondence only): hold rows with NaN length
+            allrows = rng.random() < 0.3
+            case["holds"] = [[h[0], h[1], None if (allrows or rng.random() < 0.4) else h[2]] for h in case["holds"]]
         if rng.random() < 0.15:
             case["xcols"] = {k: rng.choice([["index"], ["foo"], ["index", "foo"]]) for k in rng.choice([["hits"], ["holds"], ["hits", "holds"]])}
     if rng.random() < 0.22:
         if case.get("via") != "read" and not case.get("bpms"):
             case["bpms"] = [[R(Fr(0)), R(Fr(120))]]
         case["post"] = [gen_post(rng, case)]
-    if rng.random() < 0.35:
+    if rng.random() < 0.3:
         case["session"] = gen_session(rng, case)
+    if rng.random() < 0.04:
+        # outside the property's range (correspondence only): a negative gap and / or threshold
+        neg = lambda: R(-Fr(rng.choice([1, 50, 150, 1000, Fr(1, 2), rng.randrange(1, 400)])))
+        w = rng.choice(["gap", "thr", "both"])
+        tgt = rng.choice(case["session"]) if case.get("session") else case
+        if w in ("gap", "both"):
+            tgt["gap"] = neg()
+        if w in ("thr", "both"):
+            tgt["thr"] = neg()
     return case
 
 
 def _c(game, gap, thr, hits, holds, mode="E", extras=None, bpms=None, **kw):
     d = dict(claim="full_ln", game=game, mode=mode, gap=R(Fr(gap)), thr=R(Fr(thr)),
-             hits=[[R(Fr(h[0])), h[1]] + ([None if h[2] is None else R(Fr(h[2]))] if len(h) > 2 else []) for h in hits], holds=[[R(Fr(t)), c, R(Fr(l))] for t, c, l in holds],
+             hits=[[R(Fr(h[0])), h[1]] + ([None if h[2] is None else R(Fr(h[2]))] if len(h) > 2 else []) for h in hits], holds=[[R(Fr(t)), c, None if l is None else R(Fr(l))] for t, c, l in holds],
              bpms=[[R(Fr(a)), R(Fr(b))] for a, b in (bpms or [])])
     if extras:
         d["extras"] = {k: [[R(Fr(x[0])), x[1]] + ([R(Fr(x[2]))] if len(x) > 2 else []) for x in v] for k, v in extras.items()}
@@ -1223,6 +1274,13 @@ def corpus():
     # D24 (repaired) witness shape: Quaver charts with notes
     c.append(_c("qua", G, T, [(0, 0)], []))
     c.append(_c("qua", G, T, [(0, 0), (250, 0), (249, 1)], [(100, 1, 30), (900, 0, 10)]))
+    # outside the property's range: negative gap / threshold (correspondence only)
+    c.append(_c("base", -50, 0, [(0, 0), (100, 0)], []))
+    c.append(_c("osu", 150, -1000, [(0, 0), (100, 0), (100, 0)], [(400, 0, 10)]))
+    c.append(_c("sm", -10.5, -3, [(0, 0), (100, 0), (5, 1)], [(400, 0, 10), (7, 1, 2)], build=dict(hits="dict", holds="items")))
+    # outside the domain: hold rows with NaN length (`nan_hold_counterexample`), correspondence only
+    c.append(_c("base", G, T, [], [(0, 0, 10), (500, 0, None)]))
+    c.append(_c("osu", 0, 0, [(0, 0), (100, 1)], [(50, 0, None), (50, 0, 7), (300, 1, None), (300, 1, None)]))
     # sessions: repeated calls on one lineage of chart objects with in-place edits in between; every call is judged against
     # the content the chart has when it is called (seeded change C17-G: Map.stack() handed out a cached, stale Stacker)
     S = lambda gap, thr, edits=(), src=-1, derive=None: dict(gap=R(Fr(gap)), thr=R(Fr(thr)), src=src, edits=list(edits),
@@ -1338,8 +1396,6 @@ def _session_ok(case):
     for st in ss:
         if not isinstance(st, dict) or not (_is_rat(st.get("gap"), "T") and _is_rat(st.get("thr"), "T")):
             return False
-        if st["gap"][0] < 0 or st["thr"][0] < 0:
-            return False
         if not isinstance(st.get("src", -1), int) or isinstance(st.get("src", -1), bool):
             return False
         dv = st.get("derive")
@@ -1361,7 +1417,7 @@ def valid(case):
         if case.get("via") == "read":
             return (case.get("claim") == "full_ln" and case.get("fmt") in ("osu", "qua", "sm", "bms", "o2j")
                     and isinstance(case.get("payload"), dict) and isinstance(case.get("pick", 0), int)
-                    and _is_rat(case["gap"], "T") and _is_rat(case["thr"], "T") and case["gap"][0] >= 0 and case["thr"][0] >= 0
+                    and _is_rat(case["gap"], "T") and _is_rat(case["thr"], "T")
                     and _post_ok(case))
         return _valid_api(case) and _post_ok(case)
     except Exception:
@@ -1373,7 +1429,7 @@ def _valid_api(case):
         mode = case["mode"]
         if case["game"] not in GAMES or mode not in ("E", "T") or case.get("claim") != "full_ln":
             return False
-        if not (_is_rat(case["gap"], mode) and _is_rat(case["thr"], mode)) or case["gap"][0] < 0 or case["thr"][0] < 0:
+        if not (_is_rat(case["gap"], mode) and _is_rat(case["thr"], mode)):
             return False
 
         def col_ok(c):
@@ -1390,8 +1446,8 @@ def _valid_api(case):
                                                for k, v in xc.items()):
                 return False
         for r in case["holds"]:
-            if not (isinstance(r, list) and len(r) == 3 and _is_rat(r[0], mode) and col_ok(r[1]) and _is_rat(r[2], mode)
-                    and r[2][0] >= 0):
+            if not (isinstance(r, list) and len(r) == 3 and _is_rat(r[0], mode) and col_ok(r[1])
+                    and (r[2] is None or (_is_rat(r[2], mode) and r[2][0] >= 0))):
                 return False
         ex = case.get("extras") or {}
         if ex and case["game"] != "sm":
